@@ -43,7 +43,7 @@ class Clause:
 
     @property
     def oid(self):
-        lp = '' if self.loop is None else 'loop%d.' % self.loop
+        lp = '' if self.loop is None else ('loop%d.' % self.loop if isinstance(self.loop, int) else 'const_%s.' % self.loop)
         return '%s#%s%s.%d[%s]' % (self.fn, lp, self.kind, self.idx, ','.join(self.tags))
 
 
@@ -60,6 +60,7 @@ class FnContract:
         self.decreases = None
         self.loops = {}   # k -> dict(invariant=[], invariant_except_break=[], ensures=[], decreases=None)
         self.ats = []     # (anchor, text)
+        self.consts = {}  # inner const name -> [Clause]
         self.src = None
 
 
@@ -83,6 +84,7 @@ def parse_ctr(text, fname='<ctr>'):
     section = None   # (kind, tags, loop)
     buf = []
     cur_loop = None
+    cur_const = None
 
     def flush():
         nonlocal buf, section
@@ -100,7 +102,10 @@ def parse_ctr(text, fname='<ctr>'):
                 cur.loops[loop]['decreases'] = val
         else:
             paras = _paragraphs(buf)
-            tgt = {'requires': cur.requires, 'ensures': cur.ensures}.get(kind) if loop is None else cur.loops[loop][kind]
+            if isinstance(loop, str):
+                tgt = cur.consts[loop]
+            else:
+                tgt = {'requires': cur.requires, 'ensures': cur.ensures}.get(kind) if loop is None else cur.loops[loop][kind]
             for p in paras:
                 t = tags if tags else cur.tags
                 tgt.append(Clause(kind if loop is None else kind, t, p.rstrip().rstrip(','), cur.name, len(tgt), loop))
@@ -124,7 +129,7 @@ def parse_ctr(text, fname='<ctr>'):
                 raise ContractError('%s:%d directive before @fn' % (fname, ln))
             tags = []
             tm = re.match(r'\[([^\]]*)\]\s*(.*)', rest)
-            if tm and d in ('requires', 'ensures', 'invariant', 'invariant_except_break', 'loop_ensures'):
+            if tm and d in ('requires', 'ensures', 'invariant', 'invariant_except_break', 'loop_ensures', 'const_ensures'):
                 tags = [t for t in re.split(r'[,\s]+', tm.group(1)) if t]
                 rest = tm.group(2)
             if d == 'tags':
@@ -137,6 +142,13 @@ def parse_ctr(text, fname='<ctr>'):
                 cur.attrs.append(rest)
             elif d == 'assumed':
                 cur.assumed = rest or 'no reason given'
+            elif d == 'const':
+                cur_const = rest
+                cur.consts.setdefault(rest, [])
+            elif d == 'const_ensures':
+                section = ('const_ensures', tags, cur_const)
+                if rest:
+                    buf.append(rest)
             elif d in ('requires', 'ensures'):
                 section = (d, tags, None)
                 cur_loop = None
@@ -320,6 +332,16 @@ def splice_module(modname, src, contracts, registry):
                 parts.append('\n    decreases %s,' % lp['decreases'])
             if parts:
                 add(lhe, ''.join(parts) + '\n/*#END*/ ')
+        for cname, cls in c.consts.items():
+            mk = '/*@const %s*/' % cname
+            p0 = src.find(mk, bo, bc)
+            if p0 < 0:
+                raise LostAnchor('%s: inner const %s not found' % (c.name, cname))
+            parts = ['\n    ensures']
+            for cl in cls:
+                registry.append(cl)
+                parts.append('\n/*#OB %s*/ %s,' % (cl.oid, cl.text))
+            add(p0 + len(mk), ''.join(parts) + '\n/*#END*/ ')
         for anchor, text in c.ats:
             check_ghost_only(c.name, text)
             text = '\n' + text + '\n'
